@@ -205,4 +205,17 @@ CLAIMS = {
         'not_decided': 'memory safety in general (index arithmetic in ElideMiddle, CanonicalizePath, the in-place '
                        'de-escaping writes of the depfile parser); absence of hangs (loop progress).',
     },
+    'C16': {
+        'design': '5.16',
+        'technique': 'who-may-call/provenance of escape modes + exact value-set evaluation of the safe-character predicate + response-file ordering over clang CFG facts',
+        'decides': 'kDoNotEscape is used only by the GetUnescaped* accessors, Edge::GetBinding (hence EvaluateCommand, the only '
+                   'source of the /bin/sh -c string) uses kShellEscape; $in/$in_newline/$out are fresh MakePathList results per '
+                   'lookup (no cache across escape modes), cover exactly the explicit inputs/outputs, and every path is appended '
+                   'either through GetShellEscapedString (kShellEscape) or verbatim (kDoNotEscape); the exact set of bytes '
+                   'IsKnownShellSafeCharacter accepts (enumerated over its CFG) is within the shell-inert set, names of such bytes '
+                   'are appended verbatim once, all others are wrapped in single quotes first-to-last; the response file is '
+                   'written in StartEdge with exactly GetBinding("rspfile_content") whenever the rule has one, and removed only '
+                   'after success and without -d keeprsp.',
+        'not_decided': 'that /bin/sh reconstructs exactly one word for every name (the quote-escaping sequence needs a shell).',
+    },
 }
